@@ -354,15 +354,108 @@ def cg_defs(defs):
         return zdef('gen_add_hist_count', ['x', 'y'], k.z(r.value.elts[0], ['x', 'y']))
     emit(defs, 'gen_add_hist_count', add_hist)
 
-    def sum_red():
+    # ---- the reductions of np.sum (after fix-3): Node.__array_function__ -> _buffer_sum per buffer, _sum_reduction(axis)
+    def body_of(f):
+        return [st for st in f.body if not (isinstance(st, ast.Expr) and isinstance(st.value, ast.Constant))]   # docstring
+
+    def conj2(test, k, params):
+        """`x and y` of two translatable comparisons"""
+        if not (isinstance(test, ast.BoolOp) and isinstance(test.op, ast.And) and len(test.values) == 2):
+            raise Unsupported('not a two-part conjunction: %s' % src_of(test))
+        return '(andb %s %s)' % (k.b(test.values[0], params), k.b(test.values[1], params))
+
+    def hist_red():
         for n in ast.walk(tree()):
             if isinstance(n, ast.Assign) and src_of(n.targets[0]) == 'reductions_map' and isinstance(n.value, ast.Dict):
                 d = {src_of(a): src_of(b) for a, b in zip(n.value.keys, n.value.values)}
-                if d.get('np.sum') != 'operator.add' or d.get('np.histogram') != '_add_histograms':
+                if d != {'np.histogram': '_add_histograms'}:
                     raise Unsupported('reductions_map: %s' % d)
-                return sdef('gen_sum_reduction', d['np.sum'])
+                return sdef('gen_hist_reduction', d['np.histogram'])
         raise Unsupported('no reductions_map')
-    emit(defs, 'gen_sum_reduction', sum_red)
+    emit(defs, 'gen_hist_reduction', hist_red)
+
+    def sr():
+        """_sum_reduction(axis): `if axis is None: return F; if axis in (..): return G; return H`"""
+        f = find_function(tree(), '_sum_reduction')
+        body = body_of(f)
+        if not (len(body) == 3 and isinstance(body[0], ast.If) and isinstance(body[1], ast.If) and isinstance(body[2], ast.Return)
+                and src_of(body[0].test) == 'axis is None' and not body[0].orelse and not body[1].orelse
+                and len(body[0].body) == 1 and isinstance(body[0].body[0], ast.Return)
+                and len(body[1].body) == 1 and isinstance(body[1].body[0], ast.Return)
+                and [a.arg for a in f.args.args] == ['axis']):
+            raise Unsupported('_sum_reduction is not `if axis is None: return ..; if axis in ..: return ..; return ..`')
+        return f, body
+    emit(defs, 'gen_sumred_none', lambda: sdef('gen_sumred_none', src_of(sr()[1][0].body[0].value)))
+    emit(defs, 'gen_sumred_axis0', lambda: sdef('gen_sumred_axis0', src_of(sr()[1][1].body[0].value)))
+    emit(defs, 'gen_sumred_rows', lambda: sdef('gen_sumred_rows', src_of(sr()[1][2].value)))
+    emit(defs, 'gen_sumred_axis0_cond', lambda: bdef('gen_sumred_axis0_cond', ['axis'], K(sr()[0], {}).b(sr()[1][1].test, ['axis'])))
+
+    def at():
+        """_add_totals: `if <both 0-d>: return a + b; return _concatenate_rows(a, b)`"""
+        f = find_function(tree(), '_add_totals')
+        body = body_of(f)
+        if not (len(body) == 2 and isinstance(body[0], ast.If) and not body[0].orelse and len(body[0].body) == 1
+                and isinstance(body[0].body[0], ast.Return) and isinstance(body[1], ast.Return)
+                and [a.arg for a in f.args.args] == ['a', 'b']):
+            raise Unsupported('_add_totals is not `if ..: return ..; return ..`')
+        return f, body
+    kat = lambda: K(at()[0], {'np.ndim(a)': 'na', 'np.ndim(b)': 'nb', 'a': 'x', 'b': 'y'})
+    emit(defs, 'gen_at_scalar_cond', lambda: bdef('gen_at_scalar_cond', ['na', 'nb'], conj2(at()[1][0].test, kat(), ['na', 'nb'])))
+    emit(defs, 'gen_at_add', lambda: zdef('gen_at_add', ['x', 'y'], kat().z(at()[1][0].body[0].value, ['x', 'y'])))
+    emit(defs, 'gen_at_else', lambda: sdef('gen_at_else', src_of(at()[1][1].value)))
+
+    def cr():
+        """_concatenate_rows: `return np.concatenate([first, second])`"""
+        f = find_function(tree(), '_concatenate_rows')
+        body = body_of(f)
+        if not (len(body) == 1 and isinstance(body[0], ast.Return) and [a.arg for a in f.args.args] == ['a', 'b']):
+            raise Unsupported('_concatenate_rows is not a single return')
+        c = body[0].value
+        if not (isinstance(c, ast.Call) and src_of(c.func) == 'np.concatenate' and len(c.args) == 1 and not c.keywords
+                and isinstance(c.args[0], ast.List) and len(c.args[0].elts) == 2):
+            raise Unsupported('_concatenate_rows does not return np.concatenate([.., ..])')
+        return c.args[0].elts
+    emit(defs, 'gen_cr_first', lambda: sdef('gen_cr_first', src_of(cr()[0])))
+    emit(defs, 'gen_cr_second', lambda: sdef('gen_cr_second', src_of(cr()[1])))
+
+    def bs():
+        """_buffer_sum: `if axis in (..) and len(array) == 0: return 0; return np.sum(array, axis=axis, **kwargs)`"""
+        f = find_function(tree(), '_buffer_sum')
+        body = body_of(f)
+        if not (len(body) == 2 and isinstance(body[0], ast.If) and not body[0].orelse and len(body[0].body) == 1
+                and isinstance(body[0].body[0], ast.Return) and isinstance(body[1], ast.Return)
+                and [a.arg for a in f.args.args] == ['array', 'axis']
+                and src_of(body[1].value) == 'np.sum(array, axis=axis, **kwargs)'):
+            raise Unsupported('_buffer_sum is not `if ..: return ..; return np.sum(array, axis=axis, **kwargs)`')
+        return f, body
+    kbs = lambda: K(bs()[0], {'len(array)': 'nrows'})
+    emit(defs, 'gen_bs_empty_cond', lambda: bdef('gen_bs_empty_cond', ['axis', 'nrows'], conj2(bs()[1][0].test, kbs(), ['axis', 'nrows'])))
+    emit(defs, 'gen_bs_empty_val', lambda: zdef('gen_bs_empty_val', [], kbs().z(bs()[1][0].body[0].value, [])))
+
+    def af():
+        """Node.__array_function__: the np.sum branch"""
+        f = find_function(tree(), 'Node.__array_function__')
+        ifs = [st for st in f.body if isinstance(st, ast.If) and src_of(st.test) == 'func == np.sum']
+        br = only(ifs, 'Node.__array_function__: `if func == np.sum:`')
+        if br.orelse or len(br.body) != 3 or not isinstance(br.body[2], ast.Return):
+            raise Unsupported('np.sum branch is not `axis = ..; comp_node = ..; return ..`')
+        axis = only(assign_to(br.body, 'axis'), 'axis = ...')
+        comp = only(assign_to(br.body, 'comp_node'), 'comp_node = ...')
+        ret = br.body[2].value
+        if not (isinstance(comp, ast.Call) and src_of(comp.func) == 'ComputationNode' and len(comp.args) == 3
+                and [src_of(a) for a in comp.args[1:]] == ['args', 'kwargs']):
+            raise Unsupported('np.sum branch: comp_node is %s' % src_of(comp))
+        if not (isinstance(ret, ast.Call) and src_of(ret.func) == 'ReductionNode' and len(ret.args) == 2 and not ret.keywords
+                and src_of(ret.args[0]) == 'comp_node'):
+            raise Unsupported('np.sum branch returns %s' % src_of(ret))
+        # the branch must come before the generic reductions_map lookup
+        later = [i for i, st in enumerate(f.body) if isinstance(st, ast.If) and src_of(st.test) == 'func in reductions_map']
+        if not later or f.body.index(br) > later[0]:
+            raise Unsupported('np.sum branch does not precede the reductions_map lookup')
+        return axis, comp.args[0], ret.args[1]
+    emit(defs, 'gen_af_sum_axis', lambda: sdef('gen_af_sum_axis', src_of(af()[0])))
+    emit(defs, 'gen_af_sum_func', lambda: sdef('gen_af_sum_func', src_of(af()[1])))
+    emit(defs, 'gen_af_sum_red', lambda: sdef('gen_af_sum_red', src_of(af()[2])))
 
     ren = {'self._buffer_index': 'buffer_index'}
     P = ['buffer_index', 'i']
